@@ -215,12 +215,16 @@ package jet
 //@   modifies ghost Held
 //@   nopanic
 //@   callsite (*Runtime).resolve count 1
+//@   callsite (*Runtime).resolve 0 requires [resolve-looks-the-name-up-like-an-identifier] {C18} name == caller.name && state == caller.state
+//@   check [resolve-is-identifier-lookup] {C18} ncalls("(*Runtime).resolve") == 1 && result == lastret("(*Runtime).resolve", 0)
 
 //@ func (*Runtime).MustResolve
 //@   props C18 C12
 //@   requires RtOK(state)
 //@   modifies ghost Held
 //@   callsite (*Runtime).resolve count 1
+//@   callsite (*Runtime).resolve 0 requires [mustresolve-looks-the-name-up-like-an-identifier] {C18} name == caller.name && state == caller.state
+//@   check [mustresolve-is-identifier-lookup] {C18} ncalls("(*Runtime).resolve") == 1 && result == lastret("(*Runtime).resolve", 0) && lastret("(*Runtime).resolve", 1) == nil
 //@   anypanic
 //@   exsures [runtime-valid-on-panic] RtX(state)
 
@@ -304,14 +308,14 @@ package jet
 //@   ensures [an-unsigned-integer-index-is-used-as-it-is] {C06} result1 == nil && KUint(RvKind(index)) ==> result0 == RvUint(index)
 //@   ensures [an-integer-index-in-range-is-accepted] {C06} (KInt(RvKind(index)) && 0 <= RvInt(index) && RvInt(index) < cap) || (KUint(RvKind(index)) && RvUint(index) < cap) ==> result1 == nil
 //@ func buildCache
-//@   props C10 C06 C12
+//@   props C10 C06 C12 C17
 //@   requires cache != nil && typ != nil
 //@   modifies map cache
 //@   loop 0 invariant 0 <= i
 //@   loop 0 invariant [entries-are-private-copies] forallT(k, "string", has(cache, k) && (!old(has(cache, k)) || cache[k] != old(cache[k])) ==> fresh(cache[k]) && len(cache[k]) > len(parent))
 //@   loop 0 invariant [shallowest-definition-wins] forallT(k, "string", old(has(cache, k)) ==> has(cache, k) && len(cache[k]) <= len(old(cache[k])))
-//@   ensures [entries-are-private-copies] {C06} forallT(k, "string", has(cache, k) && (!old(has(cache, k)) || cache[k] != old(cache[k])) ==> fresh(cache[k]) && len(cache[k]) > len(parent))
-//@   ensures [shallowest-definition-wins] {C06} forallT(k, "string", old(has(cache, k)) ==> has(cache, k) && len(cache[k]) <= len(old(cache[k])))
+//@   ensures [entries-are-private-copies] {C06,C17} forallT(k, "string", has(cache, k) && (!old(has(cache, k)) || cache[k] != old(cache[k])) ==> fresh(cache[k]) && len(cache[k]) > len(parent))
+//@   ensures [shallowest-definition-wins] {C06,C17} forallT(k, "string", old(has(cache, k)) ==> has(cache, k) && len(cache[k]) <= len(old(cache[k])))
 //@ func resolveIndex
 //@   props C10 C11 C06 C12 C17
 //@   modifies mapsof map[reflect.Type]map[string][]int, ghost Held
@@ -592,7 +596,7 @@ package jet
 // Off(a): 1 when the call has an implicit piped first argument (a piped value and no '_' slot), else 0
 //@ pred Implicit(a *Arguments) := a.pipedVal != nil && !a.args.HasPipeSlot
 //@ func (*Arguments).NumOfArguments
-//@   props C14 C17
+//@   props C14 C17 C18
 //@   requires a != nil
 //@   nopanic
 //@   ensures [piped-value-counts-as-first-argument] result == len(a.args.Exprs) + ite(Implicit(a), 1, 0) && result >= 0
